@@ -43,7 +43,8 @@ func Synthetic() []Spec {
 // Alphabet lists the generated blocks (1-3 transactions): coins transfers to a receiver with
 // history, to a never-seen address, to the sender itself, several receivers, the same pair twice, an
 // address that is sender and receiver, a transfer that fails for lack of balance (fee still paid), a
-// none transaction, manage transactions (by the super manager and by somebody else), groups of two
+// none transaction, deposits into and withdrawals from an executor account (coins TransferToExec / Withdraw:
+// succeeding in one block, failing for lack of a deposit), manage transactions (by the super manager and by somebody else), groups of two
 // (succeeding, failing as a whole), and mixtures of them.
 func Alphabet() []Spec {
 	return []Spec{
@@ -89,6 +90,14 @@ func Alphabet() []Spec {
 		}},
 		{"manage(A),A->C,none(E)", func(e *Env) []*types.Transaction {
 			return []*types.Transaction{e.Manage(A, ManageKey, "add", "v3"), e.Transfer(A, C, 4), e.None(E)}
+		}},
+		{"A=>exec(none)", func(e *Env) []*types.Transaction { return one(e.ToExec(A, "none", 50)) }},
+		{"A=>exec(none),A<=exec(none)", func(e *Env) []*types.Transaction {
+			return []*types.Transaction{e.ToExec(A, "none", 50), e.Withdraw(A, "none", 20)}
+		}},
+		{"A<=exec(none)(fails)", func(e *Env) []*types.Transaction { return one(e.Withdraw(A, "none", 1e9)) }},
+		{"D=>exec(none),D<=exec(none),A->D", func(e *Env) []*types.Transaction {
+			return []*types.Transaction{e.ToExec(D, "none", 30), e.Withdraw(D, "none", 30), e.Transfer(A, D, 3)}
 		}},
 		{"group[A->A,E->C],A->D", func(e *Env) []*types.Transaction {
 			return cat(e.Group([]int{A, E}, []int{A, C}, []int64{8, 9}), one(e.Transfer(A, D, 10)))
